@@ -77,6 +77,17 @@ let replay ~maxt ~program (lines : line list) : string option =
             if (gett !st u).t_blocked = None then
               err := Some (Printf.sprintf "step %d: the signal woke thread %d, which is not blocked in the model (hypothesis sched_wf of T13 does not hold on this trace)" k (int_of_nat u))
           | _ -> ());
+         (* hypothesis sched_causal of T14_race_free: a thread starts only after the pthread_create that creates it *)
+         if op = "start" then begin
+           let nthreads = List.length (!st).ps_threads in
+           for x = 0 to nthreads - 1 do
+             let th = gett !st (nat_of_int x) in
+             (match th.t_op, th.t_obj with
+              | KCreate, OThread u when int_of_nat u = t ->
+                err := Some (Printf.sprintf "step %d: thread %d starts while thread %d has not yet performed the pthread_create that creates it (hypothesis sched_causal of T14_race_free)" k t x)
+              | _ -> ())
+           done
+         end;
          if !err = None then
          (match pstep !st (nat_of_int t) wake !stash with
           | None -> err := Some (Printf.sprintf "step %d: thread %d is not enabled in the model" k t)
@@ -124,7 +135,7 @@ let spec_check (status : string) ~maxt ~program (lines : line list) : string opt
 let check acc ~klass ~maxt ~policy ~seed ~spurious ~program ~forced =
   (* hypothesis prog_wf of the C13 theorems (the extracted test): handlers exist, no dispatch after finish, destroy last *)
   if not (prog_wf (cmds_of_program program)) then
-    fail acc ~kind:"model_mismatch" ~what:"[C13] a generated caller program does not satisfy prog_wf (hypothesis of T13_no_abort / T13b / T13_exactly_once)" (JS program);
+    fail acc ~kind:"model_mismatch" ~what:"[C13,C14] a generated caller program does not satisfy prog_wf (hypothesis of T13_no_abort / T13b / T13_exactly_once)" (JS program);
   let case = lazy (JO [ "max_threads", JI maxt; "program", JS program; "policy", JS policy; "seed", JI seed; "spurious", JB spurious;
                         "forced_schedule", JL (List.map (fun x -> JI x) forced) ]) in
   let (status, lines) = run_harness ~maxt ~policy ~seed ~spurious ~program ~forced in
@@ -136,7 +147,7 @@ let check acc ~klass ~maxt ~policy ~seed ~spurious ~program ~forced =
      | Some msg -> fail acc ~kind:"spec_violation" ~what:("[C13] " ^ msg) (Lazy.force case)
      | None -> ());
     (match replay ~maxt ~program lines with
-     | Some msg -> fail acc ~kind:"model_mismatch" ~what:("[C13] model replay: " ^ (if String.length msg > 60 then String.sub msg 0 60 else msg)) (JO [ "case", Lazy.force case; "detail", JS msg ])
+     | Some msg -> fail acc ~kind:"model_mismatch" ~what:("[C13,C14] model replay: " ^ (if String.length msg > 60 then String.sub msg 0 60 else msg)) (JO [ "case", Lazy.force case; "detail", JS msg ])
      | None -> ());
     lines
   end
